@@ -108,6 +108,13 @@ pub fn selftest() -> i32 {
             code = 2;
         }
     }
+    match crate::refm::relround::self_test() {
+        Ok(n) => println!("selftest relround (test262 tables ported by the repo): ok ({n} comparisons)"),
+        Err(e) => {
+            println!("selftest relround: FAILED {e}");
+            code = 2;
+        }
+    }
     match crate::refm::tz::self_test() {
         Ok(n) => println!("selftest tz: ok ({n} comparisons)"),
         Err(e) => {
